@@ -328,6 +328,21 @@ impl<'tcx> Dumper<'tcx> {
             if let Some(parent) = tcx.opt_parent(did) {
                 fields.push(("parent", s(self.path(parent))));
             }
+            // captured variables (upvars) with their types
+            let caps: Vec<J> = tcx
+                .closure_captures(ldid)
+                .iter()
+                .map(|c| {
+                    let t = c.place.ty();
+                    J::obj(vec![
+                        ("name", s(c.to_string(tcx))),
+                        ("ty", s(self.tystr(t))),
+                        ("tys", self.ty_tree(t, 0)),
+                        ("by_ref", J::Bool(matches!(c.info.capture_kind, ty::UpvarCapture::ByRef(_)))),
+                    ])
+                })
+                .collect();
+            fields.push(("upvars", J::Arr(caps)));
         }
         // attributes: #[test], #[cfg(test)] modules are simply absent in non-test builds
         let hir_id = tcx.local_def_id_to_hir_id(ldid);
